@@ -436,9 +436,9 @@ Definition safe_tok (t : str) : bool :=
   | [] => false
   | c :: _ => negb (c =? 45) && forallb safe_char t
   end.
-(** a value that can stand between double quotes *)
+(** a value that can stand between double quotes (tabs allowed) *)
 Definition safe_quoted (t : str) : bool :=
-  forallb (fun c => (32 <=? c) && negb (c =? 34) && negb (c =? 92) && negb (c =? 127)) t.
+  forallb (fun c => ((32 <=? c) || (c =? 9)) && negb (c =? 34) && negb (c =? 92) && negb (c =? 127)) t.
 Definition safe_name (t : str) : bool :=
   match t with [] => false | _ => forallb (fun c => safe_char c && negb (c =? 47)) (under t) end.
 
